@@ -552,6 +552,14 @@ func TestRawRangeEndPoints(t *testing.T) {
 			}
 		}
 	}
+	// ranges of one character and ranges that end at the last code point, in every escape spelling
+	for _, s := range []string{"[0-0]", "[a-a]+", "[\\x41-\\x41]", "[^b-b]", "[\\x10FFFE-\\x10FFFF]", "[a-z\\x10FFFD-\\x10FFFF]+", "[\\x0010FFFF-\\x0010FFFF]", "[\\x10FFFF]", "\\x10FFFF", "[\\xFFFF-\\x10000]", "[\\x7E-\\x7F]", "[\\x7F-\\x80]", "[\\xD7FF-\\xE000]"} {
+		n++
+		rec.Case("raw-range:"+s, true, "raw_range_end_points")
+		if err := checkCanonical(s); err != nil {
+			rec.Fail(t, "text", input{Text: s, Mode: "canonical"}, "%v", err)
+		}
+	}
 	rec.Count("raw_range_texts", n)
 }
 
